@@ -462,6 +462,44 @@ fn rendezvous_drops(rep: &mut Report, pairs: usize, rounds: usize, seed: u64) {
             }));
         }
     }
+    for h in hs.drain(..) {
+        if h.join().is_err() {
+            bad.lock().unwrap().push("panic: a rendezvous thread panicked".into());
+        }
+    }
+    // ping-pong: both threads of a pair run new()+drop of the SAME content a few times, in step, then move on to a
+    // content that never comes back. One thread's table clean-up keeps meeting the other's new() and drop of that
+    // content (slot dead / re-populated / released again), and whatever is left behind when the pair moves on stays.
+    for p in 0..pairs {
+        let done = [Arc::new(AtomicU64::new(0)), Arc::new(AtomicU64::new(0))];
+        for side in 0..2usize {
+            let mine = done[side].clone();
+            let other = done[1 - side].clone();
+            hs.push(std::thread::spawn(move || {
+                let mut x: u64 = 0x9E3779B97F4A7C15 ^ ((p as u64) << 8 | side as u64);
+                for k in 1..=rounds as u64 {
+                    let mut bytes = content_bytes(tag, 252);
+                    bytes.extend_from_slice(&(p as u32).to_le_bytes());
+                    bytes.extend_from_slice(&k.to_le_bytes());
+                    bytes.extend_from_slice(&seed.to_le_bytes());
+                    for _ in 0..3 {
+                        let h = SharedString::new(bytes.clone());
+                        x ^= x << 13;
+                        x ^= x >> 7;
+                        x ^= x << 17;
+                        for _ in 0..(x % 24) {
+                            std::hint::spin_loop();
+                        }
+                        drop(h);
+                    }
+                    mine.store(k, Ordering::Release);
+                    while other.load(Ordering::Acquire) < k {
+                        std::hint::spin_loop();
+                    }
+                }
+            }));
+        }
+    }
     for h in hs {
         if h.join().is_err() {
             bad.lock().unwrap().push("panic: a rendezvous thread panicked".into());
@@ -469,6 +507,7 @@ fn rendezvous_drops(rep: &mut Report, pairs: usize, rounds: usize, seed: u64) {
     }
     rep.evaluations += 1;
     rep.add("stress.rendezvous_last_two_drops", (pairs * rounds) as u64);
+    rep.add("stress.pingpong_contents", (pairs * rounds) as u64);
     let end_len = verif_hooks::cache_len();
     let mut errs = bad.lock().unwrap().clone();
     if end_len != base_len {
@@ -619,6 +658,26 @@ fn stress(rep: &mut Report, threads: usize, ops: usize, contents: usize, seed: u
                     drop(h);
                     drop(h2);
                 }
+                // sliding-alphabet phase: all threads create / clone / drop the SAME content at about the same time, and
+                // the content changes every few operations and never comes back. Races between one thread's clean-up
+                // and another thread's new()/drop of that content happen as in the churn phase, but an entry left
+                // behind is never re-used, so it is still there at the final table-size check.
+                let slide = (per_round * rounds / 4).max(4000);
+                for k in 0..slide {
+                    if k % 1024 == 0 {
+                        barrier.wait();
+                    }
+                    let mut bytes = content_bytes(tag, 253);
+                    bytes.extend_from_slice(&((k / 8) as u64).to_le_bytes());
+                    let h = SharedString::new(bytes);
+                    if rng.chance(1, 3) {
+                        let h2 = h.clone();
+                        drop(h);
+                        drop(h2);
+                    } else {
+                        drop(h);
+                    }
+                }
             })
         })
         .collect();
@@ -636,6 +695,7 @@ fn stress(rep: &mut Report, threads: usize, ops: usize, contents: usize, seed: u
     rep.evaluations += 1;
     rep.add("stress.operations", (per_round * rounds * threads) as u64);
     rep.add("stress.barrier_checks", (rounds * threads) as u64);
+    rep.add("stress.sliding_alphabet_operations", ((per_round * rounds / 4).max(4000) * threads) as u64);
     rep.add("stress.unique_strings_created_and_dropped", ((per_round * rounds / 4).max(1000) * threads) as u64);
     errs.sort();
     errs.dedup_by_key(|e| classify(e));
